@@ -248,6 +248,7 @@ pub struct PollInfo {
     pub rec_late: bool,
 }
 
+#[derive(Clone)]
 pub struct PollObs {
     pub timeout: Duration,
     pub ch: [ChanHist; 16],
